@@ -979,6 +979,10 @@ def _tensorclass(cls: T, *, frozen, shadow: bool) -> T:
     for attr in TensorDict.__dict__.keys():
         func = getattr(TensorDict, attr)
         if inspect.ismethod(func) and attr not in cls.__dict__:
+            if isinstance(inspect.getattr_static(cls, attr, None), classmethod):
+                # a parent tensorclass already provides the tensorclass version
+                # (from_dict, _load_memmap): it binds to the child class by itself
+                continue
             tdcls = func.__self__
             if issubclass(tdcls, TensorDictBase):  # detects classmethods
                 setattr(cls, attr, _wrap_classmethod(tdcls, cls, func))
